@@ -2,6 +2,7 @@ package main
 
 import (
 	"fmt"
+	"go/token"
 	"strings"
 
 	"golang.org/x/tools/go/ssa"
@@ -193,6 +194,13 @@ func a1Rule(min int, names ...string) Rule {
 	return Rule{ID: "A1", Doc: "no error produced in these functions is dropped: returned | checked with failing continuation | accumulated | delegated (DESIGN §3 A1)", Min: min,
 		Run: func(c *Ctx) {
 			for _, f := range c.resolveFuncs("A1", names...) {
+				for _, l := range c.a1LoopCarried(f) {
+					if l.lost {
+						c.bad("A1", fname(f), l.what, l.pos, "an error kept in a variable across loop iterations is overwritten by a later iteration ("+l.detail+"): only the outcome of the last element visited survives")
+					} else {
+						c.ok("A1", fname(f), l.what, l.pos, "error carried around the loop is preserved: "+l.detail)
+					}
+				}
 				for _, r := range c.a1Func(f) {
 					construct := "error of " + r.callee
 					switch r.status {
@@ -233,12 +241,38 @@ func (c *Ctx) resolveFuncs(rule string, names ...string) []*ssa.Function {
 			}
 			continue
 		}
+		if n == "@expiry" {
+			// the expiry checkers, discovered by what they do (rules_entry.go: expiryChecker), and their wrappers
+			for _, f := range c.srcFuncs("in_toto") {
+				if c.expiryCheckerLike(f, 0) >= 0 {
+					addf(f)
+				}
+			}
+			continue
+		}
 		f := c.lookup(n)
 		if f == nil {
 			c.undecided(rule, n, "anchor", 0, "function "+n+" not found in the program (renamed or removed): the rule cannot be evaluated")
 			continue
 		}
 		addf(f)
+	}
+	// unexported helpers of the analysed packages called (transitively) from the named functions are in scope too:
+	// an error dropped in a helper that was split off a listed function is dropped all the same
+	for i := 0; i < len(out); i++ {
+		for _, call := range allCalls(out[i]) {
+			g := call.Common().StaticCallee()
+			if g == nil || g.Blocks == nil || g.Pkg == nil || seen[g] {
+				continue
+			}
+			if g.Object() != nil && g.Object().Exported() {
+				continue
+			}
+			switch shortName(g.Pkg.Pkg.Path()) {
+			case "in_toto", "cmd", "internal/spiffe":
+				addf(g)
+			}
+		}
 	}
 	return out
 }
@@ -259,4 +293,131 @@ func (p *Prog) lookup(short string) *ssa.Function {
 		}
 	}
 	return p.byName[short]
+}
+
+// ---------------------------------------------------------------------------
+// errors carried around a loop in a variable
+
+type a1Loop struct {
+	what, detail string
+	pos          token.Pos
+	lost         bool
+}
+
+// a1LoopCarried inspects every error-typed phi at a loop header whose value reaches a return: on each back edge the
+// incoming value must preserve an earlier non-nil error. Leaves of the incoming value (through inner phis) are
+// classified on their edge as the header value itself (preserved), known non-nil (a newer error), known nil or
+// unknown. The error is lost when a non-nil value can be carried around and some leaf that is not the header value
+// may be nil.
+func (p *Prog) a1LoopCarried(f *ssa.Function) []a1Loop {
+	var out []a1Loop
+	n := 0
+	for _, b := range f.Blocks {
+		for _, in := range b.Instrs {
+			h, ok := in.(*ssa.Phi)
+			if !ok {
+				break
+			}
+			if !isErrorType(h.Type()) {
+				continue
+			}
+			isHeader := false
+			for _, pb := range b.Preds {
+				if b.Dominates(pb) {
+					isHeader = true
+				}
+			}
+			if !isHeader {
+				continue
+			}
+			reachesReturn := flowsTo(h, func(u ssa.Instruction, via ssa.Value) bool {
+				r, ok := u.(*ssa.Return)
+				if !ok {
+					return false
+				}
+				for _, x := range r.Results {
+					if x == via {
+						return true
+					}
+				}
+				return false
+			}, func(x ssa.CallInstruction) bool { return a1Wrappers[calleeName(x)] })
+			if !reachesReturn {
+				continue
+			}
+			n++
+			mayNonNil, mayNil := "", ""
+			var walk func(v ssa.Value, pb, succ *ssa.BasicBlock, depth int)
+			seen := map[ssa.Value]bool{}
+			walk = func(v ssa.Value, pb, succ *ssa.BasicBlock, depth int) {
+				if v == ssa.Value(h) {
+					return
+				}
+				if ph, isPhi := v.(*ssa.Phi); isPhi && depth < 8 && !seen[ph] {
+					seen[ph] = true
+					for i, e := range ph.Edges {
+						walk(e, ph.Block().Preds[i], ph.Block(), depth+1)
+					}
+					return
+				}
+				knownNil := isNilConst(v) || p.nilAt(v, pb)
+				knownNonNil := p.nonNilAt(v, pb)
+				for _, a := range forwardAliases(v) {
+					knownNil = knownNil || p.nilAt(a, pb)
+					knownNonNil = knownNonNil || p.nonNilAt(a, pb)
+				}
+				if !knownNil && !knownNonNil && succ != nil {
+					if refs := v.Referrers(); refs != nil {
+						for _, r := range *refs {
+							if bo, isBo := r.(*ssa.BinOp); isBo && (bo.Op == token.EQL || bo.Op == token.NEQ) && (isNilConst(bo.X) || isNilConst(bo.Y)) {
+								if edgeFact(pb, succ, bo, bo.Op == token.EQL) {
+									knownNil = true
+								}
+								if edgeFact(pb, succ, bo, bo.Op == token.NEQ) {
+									knownNonNil = true
+								}
+							}
+						}
+					}
+				}
+				if pc, _ := producer(v, nil); pc != nil {
+					if cn := calleeName(pc); cn == "fmt.Errorf" || cn == "errors.New" {
+						knownNonNil = true
+					}
+				}
+				if !knownNil {
+					mayNonNil = short(org(v))
+				}
+				if !knownNonNil {
+					mayNil = short(org(v))
+				}
+			}
+			for i, e := range h.Edges {
+				pb := b.Preds[i]
+				if !b.Dominates(pb) {
+					continue
+				}
+				walk(e, pb, b, 0)
+			}
+			l := a1Loop{what: fmt.Sprintf("error variable carried around a loop #%d", n), pos: h.Pos()}
+			if l.pos == token.NoPos {
+				for _, in2 := range b.Instrs {
+					if in2.Pos() != token.NoPos {
+						l.pos = in2.Pos()
+						break
+					}
+				}
+			}
+			if mayNonNil != "" && mayNil != "" {
+				l.lost = true
+				l.detail = "a later iteration stores " + mayNil + ", which may be nil, over an earlier " + mayNonNil
+			} else if mayNonNil == "" {
+				l.detail = "no non-nil error is ever carried into the next iteration (errors leave the loop at once)"
+			} else {
+				l.detail = "later iterations keep the earlier value or replace it by another non-nil error"
+			}
+			out = append(out, l)
+		}
+	}
+	return out
 }
